@@ -3,7 +3,7 @@ N = ("Trusted: Coq 8.16.1 kernel (vm_compute used, no native_compute); no axioms
      "'Closed under the global context', re-checked on each run); the hand-written Gallina model (Tst/Traph/Traphw/Codec/Storage.v), tied "
      "to /repo by the files regenerated from the source on every run (Consts.v: constants, formats, accessor table; CallGraph.v; "
      "GenHelpers.v / GenHelpers2.v: the pure helpers incl. their loops; GenStorage.v: the two storage classes; GenNode.v: reading and "
-     "writing a trie node with its tail blocks; GenLinks.v: the link store node class, add_links and the three list traversals - each proved equal to the model's definitions) and by this check's correspondence run (extraction: ExtrOcamlBasic only); the translators' Python subset; Python "
+     "writing a trie node with its tail blocks; GenLinks.v: the link store node class, add_links and the three list traversals; GenTrie.v: lru_node, windup_lru and the node navigation methods - each proved equal to the model's definitions) and by this check's correspondence run (extraction: ExtrOcamlBasic only); the translators' Python subset; Python "
      "semantics (bytes order, struct, re, dict order, file I/O) as modelled. Quantifier of the theorems: every configuration (default rule "
      "+ anchored rules of the family), every history of well-formed requests (wf_op: LRUs non-empty and '|'-terminated, ids non-zero). ")
 REF = ("Refinement: RefFull.run_R proves that after EVERY history the model state is related (R = Rcore /\\ Rlinks) to the abstract "
@@ -25,7 +25,8 @@ CLAIMED = {
              "reports), and at specification level a page is added iff new, re-submission only turns the crawled mark on.", T_REF, "DESIGN.md section 6 C01"),
     "C02": c(REF + "Props/C02.v: an LRU is findable iff it is in the specification's known set (stem-prefix closure of every LRU named in a write), the "
              "full traversal lists exactly that set without duplicates, bottom-up reconstruction from the located address returns the LRU; stem "
-             "and block codecs round-trip for every stem length (CodecFacts: chunks, pascal string, little-endian registers).", T_REF, "DESIGN.md section 6 C02",
+             "and block codecs round-trip for every stem length (CodecFacts: chunks, pascal string, little-endian registers). On the lookup code translated "
+             "from the source on every run (GenTrie.v): lru_node returns exactly the node the tree model finds and windup_lru its path, on the trie file of every reachable state.", T_REF, "DESIGN.md section 6 C02",
              "Byte layout is tied to the source by Consts.v (formats, stem size, flag bits re-proved) and by the raw-bytes comparison of the trie file."),
     "C03": c(REF + "Props/C03.v: get_page_links lists exactly the specification's weighted pairs (weight = number of submissions, out side = in side, "
              "self link once as internal), no duplicates; both link enumerations are the distinct submitted pairs (transposes); the link count is "
